@@ -100,14 +100,21 @@ func (mavls *Store) Get(datas *types.StoreGet) [][]byte {
 	var err error
 	values := make([][]byte, len(datas.Keys))
 	search := string(datas.StateHash)
-	if data, ok := mavls.trees.Load(search); ok && data != nil {
-		tree = data.(*mavl.Tree)
-	} else {
-		tree = mavl.NewTree(mavls.GetDB(), true, mavls.treeCfg)
-		//get接口也应该传入高度
-		//tree.SetBlockHeight(datas.Height)
-		err = tree.Load(datas.StateHash)
-		mlog.Debug("store mavl get tree", "err", err, "StateHash", common.ToHex(datas.StateHash))
+	// A state that is in the database is read from the database. The pending tree of the same hash
+	// (the update computed again, e.g. a block re-executed at another height) is not safe to read
+	// while it is being committed: Tree.Save clears its child pointers before the batch is written,
+	// and with enableMavlPrefix the children of the recomputed tree have keys the database does
+	// not hold yet, so a concurrent Get at the committed root panicked with ErrNodeNotExist.
+	tree = mavl.NewTree(mavls.GetDB(), true, mavls.treeCfg)
+	//get接口也应该传入高度
+	//tree.SetBlockHeight(datas.Height)
+	err = tree.Load(datas.StateHash)
+	mlog.Debug("store mavl get tree", "err", err, "StateHash", common.ToHex(datas.StateHash))
+	if err != nil {
+		if data, ok := mavls.trees.Load(search); ok && data != nil {
+			tree = data.(*mavl.Tree)
+			err = nil
+		}
 	}
 	if err == nil {
 		for i := 0; i < len(datas.Keys); i++ {
